@@ -115,7 +115,7 @@ def CASES(tier, seed):
                 plan += [(si, c_lvl0, 30)]
         else:  # thorough (sized by CPU time: ~17000 core-seconds): 100 = all variants, -3 = the quick variants, -1 = CORE_OPS, -2 = CHOOSE_OPS
             second = st['legs'][0]['qconj'] == -1
-            c_perm = dict(c_lvl0, prestate='choice')
+            c_perm = dict(c_lvl0, prestate='rotated')  # a symbolic choice of the row permutation ('choice') triples the paths per operand: 7700 core-s
             if m == 1 and first:
                 plan += [(si, c_all, 100), (si, c_none, -3), (si, c_choose, -2)]
             elif m == 1 and second:
@@ -148,8 +148,8 @@ def CASES(tier, seed):
                                                          **cb), opts=OA))
     OB = dict(max_paths=40000, max_wall_s=220 if quick else 1600, validate_paths=2, hard_timeout_s=235 if quick else 1750)
     for si, st in enumerate(P1.structs_B(tier, seed)):
-        if quick and si in (3, 4, 5, 6):
-            continue
+        if (quick and si in (3, 4, 5, 6)) or st['rank'] > 3:
+            continue  # rank 4 structures: C01 thorough only
         cb = dict(subset='draw' if si % 3 else 'all', prestate=['reversed', 'rotated', 'sorted'][si % 3], legflags=['computed', 'false'][si % 2],
                   opt_level=[1, 0, 3][si % 3])
         for ci, chunk in enumerate(P1._chunks(opsB, 40 if tier == 'quick' else (8 if st['rank'] > 3 else 14))):
